@@ -732,6 +732,36 @@ impl Exec {
         }
     }
 
+    /// hand-made ids next to every id ever returned by a spawn: how many of them are (wrongly) valid
+    fn probe_count(&self) -> usize {
+        let w = self.world.as_ref().unwrap();
+        let known: Vec<EntityId> = ORDS.with(|o| o.borrow().clone());
+        let mut cands: Vec<(u32, u64)> = vec![];
+        for k in &known {
+            let g = k.generation() as u64;
+            let mut gs = vec![g + 1, g + 2];
+            if g >= 1 { gs.push(g - 1); }
+            if g >= 2 { gs.push(g - 2); }
+            for x in gs {
+                if !cands.contains(&(k.index().0, x)) {
+                    cands.push((k.index().0, x));
+                }
+            }
+        }
+        cands
+            .into_iter()
+            .filter(|&(i, g)| {
+                if g > u32::MAX as u64 {
+                    return false;
+                }
+                match EntityId::new(i, g as u32) {
+                    Some(id) => !known.contains(&id) && w.entities().contains(id),
+                    None => false,
+                }
+            })
+            .count()
+    }
+
     fn render_store(&self) -> String {
         let w = self.world.as_ref().unwrap();
         let n = ORDS.with(|o| o.borrow().len());
@@ -891,6 +921,7 @@ fn main() {
             lines.push(e.render_reg());
             let (_, c, q) = e.world.as_ref().unwrap().verif_pending();
             lines.push(format!("pend res={c} queue={q}"));
+            lines.push(format!("pr {}", e.probe_count()));
             if snap {
                 let w = e.world.as_ref().unwrap();
                 for l in w.verif_snapshot().lines() {
